@@ -6,6 +6,8 @@ import Mathlib.Tactic.Ring
 
 open Matrix Finset BigOperators
 
+set_option linter.unusedSectionVars false
+
 namespace GT.Affine
 
 variable {K : Type*} [Field K] {n m : ℕ}
@@ -59,5 +61,66 @@ theorem zip_const_left {α β : Type*} (a : α) (l : List β) :
   induction l with
   | nil => rfl
   | cons b l ih => simp only [List.map_cons, List.zip_cons_cons, ih]
+
+/-! ### automatic chart choice -/
+
+section auto
+variable {L : Type*} [LinearOrder L]
+
+theorem foldl_min_le (g : (Fin (n + 1) → K) → L) :
+    ∀ (rest : List (Fin (n + 1) → K)) (m : L),
+      rest.foldl (fun m x => min m (g x)) m ≤ m ∧
+      (∀ x ∈ rest, rest.foldl (fun m x => min m (g x)) m ≤ g x) ∧
+      (rest.foldl (fun m x => min m (g x)) m = m ∨ ∃ x ∈ rest, rest.foldl (fun m x => min m (g x)) m = g x)
+  | [], m => ⟨le_refl _, by simp, Or.inl rfl⟩
+  | y :: rest, m => by
+    obtain ⟨h1, h2, h3⟩ := foldl_min_le g rest (min m (g y))
+    simp only [List.foldl_cons]
+    refine ⟨le_trans h1 (min_le_left _ _), ?_, ?_⟩
+    · intro x hx
+      rcases List.mem_cons.1 hx with rfl | hx
+      · exact le_trans h1 (min_le_right _ _)
+      · exact h2 x hx
+    · rcases h3 with h | ⟨x, hx, h⟩
+      · rcases min_choice m (g y) with hm | hm
+        · left; rw [h, hm]
+        · right; exact ⟨y, by simp, by rw [h, hm]⟩
+      · right; exact ⟨x, by simp [hx], h⟩
+
+/-- `colMin` is a lower bound of the column and is attained -/
+theorem colMin_spec (absf : K → L) (p₀ : Fin (n + 1) → K) (rest : List (Fin (n + 1) → K)) (c : Fin (n + 1)) :
+    (∀ x ∈ p₀ :: rest, colMin absf p₀ rest c ≤ absf (x c)) ∧
+    ∃ x ∈ p₀ :: rest, colMin absf p₀ rest c = absf (x c) := by
+  obtain ⟨h1, h2, h3⟩ := foldl_min_le (fun x => absf (x c)) rest (absf (p₀ c))
+  constructor
+  · intro x hx
+    rcases List.mem_cons.1 hx with rfl | hx
+    · exact h1
+    · exact h2 x hx
+  · rcases h3 with h | ⟨x, hx, h⟩
+    · exact ⟨p₀, by simp, h⟩
+    · exact ⟨x, by simp [hx], h⟩
+
+theorem foldl_argmax (f : Fin (n + 1) → L) :
+    ∀ (l : List (Fin (n + 1))) (b : Fin (n + 1)),
+      f b ≤ f (l.foldl (fun best i => if f best < f i then i else best) b) ∧
+      ∀ i ∈ l, f i ≤ f (l.foldl (fun best i => if f best < f i then i else best) b)
+  | [], b => ⟨le_refl _, by simp⟩
+  | j :: l, b => by
+    simp only [List.foldl_cons]
+    obtain ⟨h1, h2⟩ := foldl_argmax f l (if f b < f j then j else b)
+    have hb : f b ≤ f (if f b < f j then j else b) := by split_ifs with h <;> [exact h.le; exact le_refl _]
+    have hj : f j ≤ f (if f b < f j then j else b) := by
+      split_ifs with h <;> [exact le_refl _; exact not_lt.1 h]
+    refine ⟨le_trans hb h1, fun i hi => ?_⟩
+    rcases List.mem_cons.1 hi with rfl | hi
+    · exact le_trans hj h1
+    · exact h2 i hi
+
+/-- `np.argmax` returns an index of a maximal value -/
+theorem argmaxFirst_spec (f : Fin (n + 1) → L) (i : Fin (n + 1)) : f i ≤ f (argmaxFirst f) :=
+  (foldl_argmax f _ 0).2 i (List.mem_finRange i)
+
+end auto
 
 end GT.Affine
